@@ -1,4 +1,8 @@
 //! Materialisers: token lists / logical documents -> real bytes.
 pub mod zipw;
+pub mod xlsx;
 pub mod cfb;
 pub mod biff;
+pub mod ods;
+pub mod xlsb;
+pub mod simple;
